@@ -109,12 +109,12 @@ def rule_format_render(ck, m, rid):
     fr = m.get(CM, "BaseImage._format_render")
     COLS, LINES_ = "self.rendered_size[0]", "self.rendered_size[1]"
     sums = emit.summaries(fr)
-    ck.expect(len(sums) == 1, f"_format_render: expected one return, found {len(sums)}")
+    ck.expect(len(sums) >= 1, f"_format_render: no return summarised")
     rp = find_exprs("render.replace('\\n', $f)", body_walk(fr))
     ck.expect(len(rp) == 1, "_format_render: `render.replace('\\n', ...)` not recognised")
     n_cases = 0
-    if len(sums) == 1 and len(rp) == 1:
-        ret, facts0, term = sums[0]
+    # every return (an early `return render` for the unpadded case may be separate) is examined in each of its cases
+    for ret, facts0, term in (sums if len(rp) == 1 else []):
         rep_term = emit.Builder(fr).expr(rp[0][1]["f"])
         cs = emit.cases(term, facts0, limit=8)
         ck.expect(cs is not None, "_format_render: too many free conditions")
